@@ -100,7 +100,7 @@ def run_property(prop, tier, seed, root=None, write_evidence=True, quiet=False, 
         r.mod.run(r)
         if tier == "thorough" and hasattr(r.mod, "run_thorough"):
             r.mod.run_thorough(r)
-        if not os.environ.get("PRSA_NO_DEPS"):
+        if not os.environ.get("PRSA_NO_DEPS") and not getattr(r.mod, "NO_DEPENDENCY_CLOSURE", False):
             from .deps import run_dependencies
             run_dependencies(r)
         demote_rewritten(r)
